@@ -136,6 +136,7 @@ func ruleC02(c *Ctx) {
 	c.Decided = []string{
 		"COORD: every Location literal the parser builds from text has Start = atoi(first number) - 1 and End = atoi(second number) (span) or Start = n-1, End = n (single base); every coordinate the printer passes to Itoa is Start+1 or End; every slice the evaluator takes of the parent is [Start:End] of one location",
 		"TABLE: the partial markers removed before Atoi are exactly '<' and '>'; FivePrimePartial / ThreePrimePartial are set under a test for '<' / '>' (not crossed)",
+		"NESTING: join operands are cut where a depth counter (+1 at '(', -1 at ')') is 0; markers are removed per coordinate, not trimmed off the whole span; a strand flag pushed down the recursion is toggled by every complement; every printed form is chosen after Complement and the partial flags were examined; the printer does not write into the location it is given",
 		"TERM-EVAL: recursive evaluation ranges over all SubLocations in order with the same feature; ReverseComplement is applied to the whole concatenation exactly on the Complement branch; GetSequence starts at feature.SequenceLocation; C11's ReverseComplement shape",
 		"TERM-PRINT: complement form = complement( + print(location with only Complement cleared) + ); join form lists every sub-location in order separated by ','; keyword tokens equal the parser's; '<' immediately before the start coordinate; '>' immediately before the end coordinate",
 		"ARITY: in the parser's join case operands are appended in a loop over the operand list",
